@@ -5,6 +5,33 @@
 namespace sim {
 
 volatile int g_curOp = -1;
+UbReport g_ub = { false, "", "", 0, "" };
+bool g_ubCollect = false;
+unsigned long long g_curRun = 0, g_curSeed = 0;
+
+void ubAfterOp(Verdict& v, int opIndex, const std::string& opLine) {
+  if (!g_ub.pending) return;
+  g_ub.pending = false;
+  const char* base = strrchr(g_ub.file, '/');
+  base = base ? base + 1 : g_ub.file;
+  std::string kind = g_ub.kind;
+  for (size_t i = 0; i < kind.size(); i++) if (kind[i] == ' ') kind[i] = '-';
+  std::string cls = fmt("ub:%s@%s:%u", kind.c_str(), base, g_ub.line);
+  if (g_ubCollect) {
+    printf("UBHIT run=%llu seed=%llu class=%s file=%s op=\"%s\" msg=\"%s\"\n", g_curRun, g_curSeed, cls.c_str(), g_ub.file,
+        jsonEscape(opLine).c_str(), jsonEscape(g_ub.msg).c_str());
+    return;
+  }
+  {
+    // SIM_IGNORE_UB=cls1,cls2: classes the orchestrator asks replay to skip (listed known findings)
+    const char* ig = getenv("SIM_IGNORE_UB");
+    if (ig) {
+      std::string l = std::string(",") + ig + ",";
+      if (l.find("," + cls + ",") != std::string::npos) return;
+    }
+  }
+  v.fail(cls, fmt("%s (%s:%u) while executing: %s", g_ub.msg, g_ub.file, g_ub.line, opLine.c_str()), opIndex);
+}
 
 bool generate(const std::string& profile, uint64_t seed, Trace& out) {
   if (profile == "clock-keep") { out = genClockKeep(seed); return true; }
@@ -27,6 +54,7 @@ static bool execClockOnly(const Trace& tr, Verdict& v, Coverage& cov, bool& nont
     if (toks.empty()) continue;
     if (toks[0] == "CFG" || toks[0] == "REF") { dev.configure(toks); continue; }
     dev.exec(toks, (int)i, v, cov);
+    ubAfterOp(v, (int)i, tr.lines[i]);
   }
   dev.finish(cov);
   nontrivial = dev.nontrivial();
